@@ -352,6 +352,8 @@ func sweepOverlap(yield func(overlapCase) bool) {
 		{Kind: "process-signal", Events: 2},
 		{Kind: "two-sites", Events: 3},
 		{Kind: "two-sites", Events: 5, Debug: true},
+		{Kind: "two-sites", Events: 3, Overlaps: 1},
+		{Kind: "two-sites", Events: 4, Overlaps: 1, Malformed: 1},
 		{Kind: "restart-while-callback-busy", Events: 0, Debug: true},
 		{Kind: "stop-from-callback", Events: 4, Debug: true},
 		{Kind: "stop-before-listen", Events: 1},
@@ -376,6 +378,14 @@ func sweepOverlap(yield func(overlapCase) bool) {
 // each gets exactly the events sent to its address, in order, both stop when signalled and both addresses are free again.
 func checkTwoSites(c overlapCase) *rp.Fail {
 	ips := [][4]byte{{127, 0, 0, 2}, {127, 0, 0, 3}}
+	if c.Overlaps == 1 {
+		// one of the two listens on the broadcast address of the (loopback) subnet - where controllers that are told to send their
+		// events 'to everybody' send them: it hears what is sent there, not what is sent to the other listener's address
+		ips = [][4]byte{{127, 255, 255, 255}, {127, 0, 0, 2}}
+		if c.Malformed == 1 {
+			ips[0], ips[1] = ips[1], ips[0]
+		}
+	}
 	var port uint16
 	for try := 0; try < 20 && port == 0; try++ {
 		p, err := farm.FreePort(ips[0])
